@@ -60,7 +60,11 @@ Failing(h, e, fl) ==
           ELSE IF a.op \in RelationalOps THEN
             LET \* `mask --ref-seq`: the window is given on the reference and converted first
                 viaRef  == a.op = "Mask" /\ Len(a.a.ref) > 0
-                RC      == Step(h, "RefCoordinates", recv, [name |-> a.a.ref, start |-> a.a.start, len |-> a.a.len])
+                \* (a window running past the last residue of the reference is truncated, as a window past the end of the
+                \* alignment is without reference)
+                nres    == IF HasName(h[recv], a.a.ref) THEN Len(NonGapPos(RowOfName(h[recv], a.a.ref).s)) ELSE 0
+                lenT    == IF a.a.start >= 0 /\ a.a.start < nres /\ a.a.start + a.a.len > nres THEN nres - a.a.start ELSE a.a.len
+                RC      == Step(h, "RefCoordinates", recv, [name |-> a.a.ref, start |-> a.a.start, len |-> lenT])
                 aEff    == IF viaRef /\ ~RC.err THEN [a.a EXCEPT !.start = RC.ret.start, !.len = RC.ret.len] ELSE a.a
                 mustErr == (viaRef /\ RC.err) \/ ErrRel(h, a.op, recv, aEff)
                 x       == newObs[1]
